@@ -177,7 +177,10 @@ func (_this *markerObjectBuilder) BuildEndContainer(ctx *Context) {
 }
 
 func (_this *markerObjectBuilder) BuildArtificiallyEndContainer(ctx *Context) {
-	_this.child.BuildArtificiallyEndContainer(ctx)
+	// This builder is only on top of the stack while the object it marks has not
+	// arrived yet, so there is nothing to end and nothing to mark. Ending the
+	// child here would end the enclosing container in this builder's place.
+	ctx.UnstackBuilder()
 }
 
 func (_this *markerObjectBuilder) NotifyChildContainerFinished(ctx *Context, value reflect.Value) {
